@@ -153,9 +153,9 @@ Section Item.
 
   Definition has_type_attr (it : item) (a : Z) : bool := al_mem zeqb (item_type_attrs w it) a.
 
-  (* Module.charge_quantity; AttributeError on other classes *)
+  (* Module.charge_quantity; other classes have no charge (getattr(item, 'charge_quantity', None)) *)
   Definition charge_quantity (i : nat) (it : item) : R (option Z) :=
-    if negb (is_module (i_cls it)) then Ex [SXAttr]
+    if negb (is_module (i_cls it)) then Ok None
     else
       match i_charge it with
       | None => Ok None
@@ -821,7 +821,7 @@ Definition stat_read (av : nat -> Z -> option Q) (w : world) (d : derived) (dur 
        | None =>
          match item_fit w i with
          | Some f => rmap VHp (item_ehp av i (Some (fit_default_dmg dp f)))
-         | None => Ex [SXAttr]                    (* self._fit.default_incoming_dmg on None *)
+         | None => rmap VHp (mk_hp 0 0 0)         (* no fit: the profile is specified nowhere *)
          end
        end)
   | SItemWcEhp i => with_cls i has_tanking (rmap VHp (item_wc_ehp av i))
